@@ -72,7 +72,7 @@ Section Conc.
   | AWrite (n : N) | AWriteFail (n : N) | AFinish | AUnlock.
 
   Definition upd (f : nat -> thread) (i : nat) (t : thread) : nat -> thread :=
-    fun j => if j =? i then t else f j.
+    fun j => if Nat.eqb j i then t else f j.
 
   Definition set_pc (s : state) (i : nat) (p : pc) : nat -> thread :=
     upd (thr s) i {| todo := todo (thr s i); at_ := p |}.
